@@ -99,7 +99,7 @@ func (c *endpointClient) Dial(
 		Key: key,
 	}
 	box := c.office.newBox(k)
-	defer box.cleanUp()
+	defer box.discard()
 
 	resp := new(dialResponse)
 	if c.options.DialWithAddr {
